@@ -65,6 +65,11 @@ def third_party_font(rng, force_notdef=False):
         outer = C13.gen_transform_wrap(rng, inner)
     glyphs[names[-1]] = outer if rng.random() < 0.7 else {"Format": 1, "Layers": [outer, g(1)]}
     font["COLR"] = builder.buildCOLR(glyphs, version=1)
+    if rng.random() < 0.5:
+        # fonts in the wild: USE_TYPO_METRICS clear and hhea metrics that differ from the OS/2 typo metrics
+        font["OS/2"].fsSelection &= ~(1 << 7)
+        font["hhea"].ascent = font["OS/2"].sTypoAscender + rng.choice([60, 150])
+        font["hhea"].descent = font["OS/2"].sTypoDescender - rng.choice([0, 40, 90])
     pals = [C13.PALETTE0] + ([[(c[1], c[2], c[0], 1.0) for c in C13.PALETTE0]] if rng.random() < 0.5 else [])
     font["CPAL"] = builder.buildCPAL(pals)
     buf = io.BytesIO()
